@@ -204,16 +204,27 @@ def render(hist, info, choices):
     return lines
 
 
-def stratified(edges, keep, rng, prio=None):
+def key_two(sig):
+    """two topologies: the stratum of a history is (the call made last before the dup, the call made first after it, whether that call is
+    mirrored on the other copy): every ordered pair of call kinds around a dup is replayed before any pair is replayed twice"""
+    names = [x[0] for x in sig]
+    if "dup" not in names:
+        return ("nodup",) + tuple(names)
+    i = names.index("dup")
+    return ("dup", names[i - 1] if i else "-", names[i + 1] if i + 1 < len(names) else "-", any(x[2] >= 100000 for x in sig), len(names) > i + 3)
+
+
+def stratified(edges, keep, rng, prio=None, key=None):
     """seeded sample of the edges ({"h": history, "g": signature}) that takes one edge of every call signature (which calls, on which slot,
     in which order, of which class), then a second one, ... until keep edges are taken; signatures are visited shortest first and, among
     equally long ones, in the order given by prio(signature) (smaller first), then at random.  Returns the histories."""
     groups = {}
     for e in edges:
-        groups.setdefault(tuple(tuple(x) for x in e["g"]), []).append(e["h"])
+        g = tuple(tuple(x) for x in e["g"])
+        groups.setdefault(key(g) if key else g, []).append(e["h"])
     if len(edges) <= keep:
         return [e["h"] for e in edges], len(groups), len(groups)
-    order = sorted(groups, key=lambda k: (len(k), prio(k) if prio else 0, rng.random()))
+    order = sorted(groups, key=(lambda k: (prio(k), rng.random())) if key else (lambda k: (len(k), prio(k) if prio else 0, rng.random())))
     for k in order:
         rng.shuffle(groups[k])
     res, seen = [], set()
@@ -239,6 +250,17 @@ def prio_two(sig):
     if "dup" in names:
         return 1
     return 2
+
+
+def prio_key_two(k):
+    """strata of key_two: a call on a copy right after the dup, mirrored on the other copy, first; then a dup as last call; then the rest"""
+    if k[0] == "dup" and k[2] != "-" and k[3] and not k[4]:
+        return 0
+    if k[0] == "dup" and k[2] == "-":
+        return 1
+    if k[0] == "dup":
+        return 2
+    return 3
 
 
 def prio_stores(sig):
@@ -357,7 +379,8 @@ def run_generic(ctx, two_slots, replay=None):
                 for nm in sorted(byname):           # calls with many argument combinations (allow, dist_add, group, cpukind): a seeded 40 of them; every restrict
                     v = byname[nm]
                     ones += v if (thorough or len(v) <= scale(40) or (nm == "restrict" and name not in light)) else frng.sample(v, scale(40))
-            picked, nsig, allsig = stratified([e for e in edges if not (tag == "ops_bfs" and len(e["h"]) == 1)], scale(keep), frng, prio)
+            picked, nsig, allsig = stratified([e for e in edges if not (tag == "ops_bfs" and len(e["h"]) == 1)], scale(keep), frng,
+                                              prio_key_two if two_slots else prio, key_two if two_slots else None)
             ctx.extra["%s_%s" % (tag, name)] = {"edges": len(edges), "signatures": allsig, "signatures_replayed": nsig, "edges_replayed": len(picked) + len(ones)}
             hists += ones + picked
         # simulation: long histories
